@@ -20,6 +20,8 @@
 (*         (VERIF_SEED noise); fields the code matches against session     *)
 (*         state - epoch, message_seq, transaction id - are not free       *)
 (*   tail  fixed leaf located at the end of its group (RTP/RTCP pad count) *)
+(*   ew    for a variable leaf that is a list of fixed-width elements: the  *)
+(*         element width (its byte length should be a multiple of it)       *)
 (*                                                                         *)
 (* The harness interprets these tables generically: it locates every leaf  *)
 (* in the genuine message (and rejects the run if the real encoder's       *)
@@ -31,7 +33,7 @@
 EXTENDS Naturals, Integers, Sequences, FiniteSets
 
 L0 == [n |-> "", k |-> "fixed", w |-> 0, ov |-> FALSE, mask |-> 0, of |-> "", unit |-> 1, bias |-> 0,
-       g |-> <<>>, unk |-> 0, el |-> FALSE, free |-> FALSE, tail |-> FALSE, s |-> ""]
+       g |-> <<>>, unk |-> 0, el |-> FALSE, free |-> FALSE, tail |-> FALSE, s |-> "", ew |-> 0]
 
 Fx(g, n, w)      == [L0 EXCEPT !.g = g, !.n = n, !.w = w]                       \* constrained fixed field
 Fr(g, n, w)      == [L0 EXCEPT !.g = g, !.n = n, !.w = w, !.free = TRUE]       \* unconstrained fixed field
@@ -49,6 +51,7 @@ Mk(l, m)         == [l EXCEPT !.mask = m]
 Ov(l, m)         == [l EXCEPT !.ov = TRUE, !.mask = m]
 El(l)            == [l EXCEPT !.el = TRUE]
 Tl(l)            == [l EXCEPT !.tail = TRUE]
+Lw(l, w)         == [l EXCEPT !.ew = w]          \* a list of fixed-width elements, w bytes each
 
 ---------------------------------------------------------------------------
 (* RTP  (src/rtp.rs RtpHeader::parse / RtpPacket::parse)                    *)
@@ -60,7 +63,7 @@ RtpFixed(g, x, cc, p) ==
      Ov(Ct(g, "x", 1, "", 0), 16),
      Ov(Ct(g, "cc", 1, "csrc", 4), 15),
      Fr(g, "mpt", 1), Fr(g, "seq", 2), Fr(g, "ts", 4), Fr(g, "ssrc", 4),
-     Vr(g, "csrc") >>
+     Lw(Vr(g, "csrc"), 4) >>
 
 R == <<"rtp">>
 RtpPlain == RtpFixed(R, 0, 2, 0) \o << Rs(R, "payload") >>
@@ -119,11 +122,11 @@ RtcpHdr(g, cof, cunit, unkcnt, b) ==
 RtcpSr ==
   LET g == <<"sr">> b == <<"sr", "srbody">> IN
   RtcpHdr(g, "blocks", 24, -1, "srbody") \o
-  << Fr(b, "ssrc", 4), Fr(b, "ntp", 8), Fr(b, "rtpts", 4), Fr(b, "pcount", 4), Fr(b, "ocount", 4), Vr(b, "blocks") >>
+  << Fr(b, "ssrc", 4), Fr(b, "ntp", 8), Fr(b, "rtpts", 4), Fr(b, "pcount", 4), Fr(b, "ocount", 4), Lw(Vr(b, "blocks"), 24) >>
 
 RtcpRr ==
   LET g == <<"rr">> b == <<"rr", "rrbody">> IN
-  RtcpHdr(g, "blocks", 24, -1, "rrbody") \o << Fr(b, "ssrc", 4), Vr(b, "blocks") >>
+  RtcpHdr(g, "blocks", 24, -1, "rrbody") \o << Fr(b, "ssrc", 4), Lw(Vr(b, "blocks"), 24) >>
 
 RtcpSdes ==
   LET g == <<"sdes">> b == <<"sdes", "sdesbody">> c == <<"sdes", "sdesbody", "chunk1">> IN
@@ -135,7 +138,7 @@ RtcpSdes ==
 RtcpBye ==
   LET g == <<"bye">> b == <<"bye", "byebody">> IN
   RtcpHdr(g, "srcs", 4, -1, "byebody") \o
-  << Vr(b, "srcs"), Ln(b, "rlen", 1, "reason", 1, 0), Vr(b, "reason"), Pd(b, "bpad", 4) >>
+  << Lw(Vr(b, "srcs"), 4), Ln(b, "rlen", 1, "reason", 1, 0), Vr(b, "reason"), Pd(b, "bpad", 4) >>
 
 RtcpNack ==
   LET g == <<"nack">> b == <<"nack", "nackbody">> IN
@@ -164,7 +167,7 @@ RtcpRemb ==
   LET g == <<"remb">> b == <<"remb", "rembbody">> IN
   RtcpHdr(g, "", 0, 31, "rembbody") \o
   << Fr(b, "sender", 4), Fr(b, "media", 4), Tg(b, "remb", 4, 1482184792), Ct(b, "numssrc", 1, "ssrcs", 4),
-     Fr(b, "brate", 3), Vr(b, "ssrcs") >>
+     Fr(b, "brate", 3), Lw(Vr(b, "ssrcs"), 4) >>
 
 \* compound SR + SDES + BYE: three packets (each a repeatable element)
 RtcpCompound ==
@@ -178,7 +181,7 @@ RtcpCompound ==
 RtcpPadded ==
   LET g == <<"rr">> b == <<"rr", "rrbody">> IN
   RtcpHdr(g, "blocks", 24, -1, "rrbody") \o
-  << Fr(b, "ssrc", 4), Vr(b, "blocks"), Rc(b, "padding"), Tl(Ln(b, "padcount", 1, "", 1, 0)) >>
+  << Fr(b, "ssrc", 4), Lw(Vr(b, "blocks"), 24), Rc(b, "padding"), Tl(Ln(b, "padcount", 1, "", 1, 0)) >>
 
 ---------------------------------------------------------------------------
 (* STUN / TURN  (src/transports/ice/stun.rs decode_stun_message; ice/mod.rs *)
@@ -232,7 +235,7 @@ Ext(g, x) ==
      Vr(g \o <<"exts", x>>, x \o ".v") >>
 SrtpExt(g, x) ==
   << El(Tg(g \o <<"exts", x>>, x \o ".t", 2, 65000)), Ln(g \o <<"exts", x>>, x \o ".l", 2, x \o ".v", 1, 0),
-     Ln(g \o <<"exts", x, x \o ".v">>, "srtp.plen", 2, "srtp.profiles", 1, 0), Vr(g \o <<"exts", x, x \o ".v">>, "srtp.profiles"),
+     Ln(g \o <<"exts", x, x \o ".v">>, "srtp.plen", 2, "srtp.profiles", 1, 0), Lw(Vr(g \o <<"exts", x, x \o ".v">>, "srtp.profiles"), 2),
      Ln(g \o <<"exts", x, x \o ".v">>, "srtp.mkilen", 1, "srtp.mki", 1, 0), Vr(g \o <<"exts", x, x \o ".v">>, "srtp.mki") >>
 \* what the real client sends: EMS, use_srtp, supported_groups, ec_point_formats, signature_algorithms
 ChExts(g) == << Ln(g, "extlen", 2, "exts", 1, 0) >> \o Ext(g, "ems") \o SrtpExt(g, "usesrtp") \o Ext(g, "groups") \o
@@ -244,7 +247,7 @@ ClientHelloBody(g) ==
   << Fx(g, "ver", 2), Fr(g, "random", 32),
      Ln(g, "sidlen", 1, "sid", 1, 0), Vr(g, "sid"),
      Ln(g, "cookielen", 1, "cookie", 1, 0), Vr(g, "cookie"),
-     Ln(g, "cslen", 2, "suites", 1, 0), Vr(g, "suites"),
+     Ln(g, "cslen", 2, "suites", 1, 0), Lw(Vr(g, "suites"), 2),
      Ln(g, "cmlen", 1, "compr", 1, 0), Vr(g, "compr") >> \o ChExts(g)
 
 ServerHelloBody(g) ==
@@ -343,7 +346,7 @@ SctpSack ==
   LET g == SC \o <<"sack", "sack.val">> IN
   SctpHdr \o ChunkHdr("sack") \o
   << Fr(g, "cumtsn", 4), Fr(g, "arwnd", 4), Ct(g, "ngaps", 2, "gaps", 4), Ct(g, "ndups", 2, "dups", 4),
-     Vr(g, "gaps"), Vr(g, "dups") >> \o << Pd(SC \o <<"sack">>, "sack.pad", 4) >>
+     Lw(Vr(g, "gaps"), 4), Lw(Vr(g, "dups"), 4) >> \o << Pd(SC \o <<"sack">>, "sack.pad", 4) >>
 
 SctpHeartbeat == SctpHdr \o ChunkHdr("hb") \o Param(SC \o <<"hb", "hb.val">>, "hbinfo", 32767) \o
                  << Pd(SC \o <<"hb">>, "hb.pad", 4) >>
@@ -359,7 +362,7 @@ SctpReconfig ==
   SctpHdr \o ChunkHdr("rc") \o
   << El(Tg(g \o <<"rp">>, "rp.t", 2, 32767)), Ln(g \o <<"rp">>, "rp.l", 2, "rp.v", 1, -4),
      Fr(g \o <<"rp", "rp.v">>, "rqsn", 4), Fr(g \o <<"rp", "rp.v">>, "rssn", 4), Fr(g \o <<"rp", "rp.v">>, "lasttsn", 4),
-     Rs(g \o <<"rp", "rp.v">>, "streams"), Pd(g \o <<"rp">>, "rp.p", 4) >> \o << Pd(SC \o <<"rc">>, "rc.pad", 4) >>
+     Lw(Rs(g \o <<"rp", "rp.v">>, "streams"), 2), Pd(g \o <<"rp">>, "rp.p", 4) >> \o << Pd(SC \o <<"rc">>, "rc.pad", 4) >>
 
 SctpAbort    == SctpHdr \o ChunkHdr("abort") \o << Vr(SC \o <<"abort">>, "abort.val"), Pd(SC \o <<"abort">>, "abort.pad", 4) >>
 SctpShutdown == SctpHdr \o ChunkHdr("sd") \o << Vr(SC \o <<"sd">>, "sd.val"), Pd(SC \o <<"sd">>, "sd.pad", 4) >>
@@ -369,7 +372,7 @@ SctpBundle ==
   LET g == SC \o <<"sack", "sack.val">> IN
   SctpHdr \o ChunkHdr("sack") \o
   << Fr(g, "cumtsn", 4), Fr(g, "arwnd", 4), Ct(g, "ngaps", 2, "gaps", 4), Ct(g, "ndups", 2, "dups", 4),
-     Vr(g, "gaps"), Vr(g, "dups") >> \o << Pd(SC \o <<"sack">>, "sack.pad", 4) >> \o
+     Lw(Vr(g, "gaps"), 4), Lw(Vr(g, "dups"), 4) >> \o << Pd(SC \o <<"sack">>, "sack.pad", 4) >> \o
   ChunkHdr("data") \o DataBody("data") \o << Pd(SC \o <<"data">>, "data.pad", 4) >>
 
 \* DCEP messages alone (DataChannelOpen::unmarshal, DataChannelAck::unmarshal)
